@@ -94,6 +94,11 @@ class Monitor:
         self.reset_in_handler = False          # a RESET instruction was executed while a handler was active
         self.reset_targets = (R.MAIN, R.HANDLER)   # contents of the reset vector (0xFFFFD) / of the vector at 0xFFFFA
         self.periods = {0x01: int(sc.get("mti", 0) or 0), 0x02: int(sc.get("sti", 0) or 0)}
+        # round 5: boundaries at which an enabled pending request met a not yet initialised stack pointer
+        self.deferred_boundaries = 0
+        self.deferred_then_valid = False
+        if "s0" in sc:
+            self.labels.add("initial-stack-pointer:" + ("uninitialised" if int(sc["s0"]) < 5 else "valid"))
         # round 5: powered-off periods with a running timer
         self.off_run = 0                       # consecutive steps the CPU stayed powered off with a timer armed
         self.off_rem = 0                       # time the nearest timer still had to run when that period began
@@ -339,6 +344,9 @@ class Monitor:
                 isr_writer = True
                 return True
             cur["pc"] = m["next"]
+            if kind == "SETS":
+                cur["s"] = int(m["arg"]) & 0xFFFFF     # MV S,imm20: the firmware loads its system stack pointer
+                self.labels.add("stack-pointer-loaded-by-program")
             if m["imr"] is not None:
                 op, val = m["imr"]
                 cur["imr"] = val if op == "set" else (cur["imr"] | val if op == "or" else cur["imr"] & val)
@@ -537,6 +545,17 @@ class Monitor:
         elig = 0
         if B["pw"] != 2 and not off_mode and ctx in ("main", "halt") and not in_handler0 and (B["imr"] & 0x80):
             elig = B["imr"] & B["isr"] & 0x0F
+        if B["s"] < 5:
+            # Round 5: both step loops document that a delivery is deferred while the system stack pointer is not yet
+            # initialised (S < 5: "IRQ deferred: stack pointer not initialized"); no obligation at such a boundary --
+            # the obligation (sentence 2: not lost, taken promptly) starts at the first boundary with a usable S.
+            if elig:
+                self.deferred_boundaries += 1
+                self.labels.add("enabled-request-pending-while-stack-pointer-uninitialised")
+            elig = 0
+        elif self.deferred_boundaries and elig and not self.deferred_then_valid:
+            self.deferred_then_valid = True
+            self.labels.add("deferred-request-still-pending-once-stack-pointer-valid")
         for bit in list(self.req):
             if delivered_here:
                 self.req[bit][0] = 0
@@ -569,6 +588,13 @@ def evaluate(model: str, sc: Dict[str, Any], run: Dict[str, Any]) -> Monitor:
         B = rec.get("b") or P
         if "b" in rec:
             mon.events(k, P, B, evs.get(k, []))
+        if rec.get("err"):
+            # a step that returned an error but left the machine steppable (Rust adapter, "step_errors": "record"):
+            # the documented deferral notice while S is not initialised is accepted, anything else is a machine error
+            if "IRQ deferred: stack pointer not initialized" in str(rec["err"]) and rec["a"]["s"] < 5:
+                mon.labels.add("step-returned-documented-deferral-error")
+            else:
+                mon.v("machine", "step", "model raised an error while stepping a valid scenario", f"step {k}: {rec['err']}")
         mon.step(k, B, rec["a"], rec.get("dl"))
         P = rec["a"]
         if mon.dead:
